@@ -37,8 +37,8 @@ type Report struct {
 	Pool     *pool.Pool
 	Start    time.Time
 
-	Findings map[string]*Finding
-	Notes    []string
+	Findings     map[string]*Finding
+	Notes        []string
 	Inconclusive int
 
 	Coverage    map[string]interface{}
